@@ -1395,11 +1395,21 @@ handler_recv_packet = Spec(
     raises={'IncompleteReadError': True, 'OSError': True})
 
 ASSUMPTIONS += [
-    'request handlers (SFTPServerHandler._process_open ... _process_ranges: body decoder + SFTPServer callback) are '
-    'abstract: when awaited they return a value of their annotated result type or raise PacketDecodeError, SFTPError '
-    '(with a status code that fits a uint32, as the SFTPError documentation requires), NotImplementedError, OSError '
-    '(any errno), another Exception (ValueError as representative) or are cancelled (CancelledError); they send '
-    'nothing themselves',
+    'request handlers (SFTPServerHandler._process_open ... _process_ranges) are abstract INSIDE _process_packet: when '
+    'awaited they return a value of their annotated result type or raise PacketDecodeError, SFTPError (with a status '
+    'code that fits a uint32, as the SFTPError documentation requires), NotImplementedError, OSError (any errno), '
+    'another Exception (ValueError as representative) or are cancelled (CancelledError); they send nothing '
+    'themselves.  Proved separately for each of the 30 handlers in the dispatch table: its decode prefix (the '
+    'statements up to the last use of `packet`) raises only PacketDecodeError / the attribute decoder\'s SFTPError, '
+    'a body shorter than its fields or (before v6) longer raises PacketDecodeError, and (AST scan) no SFTPServer '
+    'callback runs inside the prefix and nothing reads the packet after it.  Not proved: what the part after the '
+    'prefix (handle tables, SFTPServer callbacks) returns or raises; SFTPAttrs.decode inside a prefix is a stub '
+    '(ends inside the body or raises PacketDecodeError / SFTPError)',
+    'client reply decoders: SFTPError.construct, _process_status/_handle/_data/_name/_attrs/_extended_reply are under '
+    'contract and _make_request uses those contracts; in them `count` x SFTPName.decode and SFTPAttrs.decode are '
+    'uninterpreted record decoders (names_of / names_end / attrs_end: end inside the body, or PacketDecodeError / '
+    'SFTPError), an error class of _sftp_error_map is represented by its base SFTPError with the code its __init__ '
+    'passes on, bytes.decode(codec, errors=<given>) is modelled as never raising (engine model)',
     'result encoders (SFTPAttrs/SFTPVFSAttrs/SFTPLimits/SFTPRanges.encode, SFTPName.encode in the name list, '
     'from_local) return bytes or raise an Exception; their wire format is checked by the bounded codec round trip',
     'the class-level tables _packet_handlers / _return_types are read from the source on every run and modelled '
@@ -1407,7 +1417,10 @@ ASSUMPTIONS += [
     'errno numbers are those of the platform the check runs on',
     'client: fewer than 2^32 requests are outstanding, i.e. the id about to be allocated is not in the waiter '
     'table (precondition id-unique of _send_request / _make_request); writers of _requests: _send_request (store), '
-    '_process_packet (pop) are under contract here, _cleanup (fails all waiters, empties the table) under C09',
+    '_process_packet (pop) are under contract here, _cleanup (fails all waiters, empties the table) under C09.  '
+    '"Outstanding" includes abandoned requests: by outstanding-until-replied a caller cancelled while waiting leaves '
+    'its id in the table until the reply arrives (for ever if the server never answers); after a 2^32 wrap-around '
+    'the store would silently replace such an entry (harmless: that waiter is cancelled) - excluded by the precondition',
     'client: while a caller is suspended in `await waiter` the waiter table and the id counter may change '
     'arbitrarily; the caller resumes with the value / exception given to its future or is cancelled',
     'send_packet failing with SFTPNoConnection / SFTPConnectionLost is represented by their base class SFTPError '
@@ -1478,6 +1491,7 @@ def _mk_request_prefix(key, name):
                 # only the attribute block decoder (undefined flags, bad owner / group / MIME text) and the v6
                 # realpath control byte check report a malformed body as an SFTPError (-> that error's status)
                 'SFTPError': lambda c: z3.BoolVal(True)})
+    sp.no_replay = True       # a region of the handler: the whole real function cannot be replayed against it
     REQUEST_PREFIX_SPECS[name] = sp
     return sp
 
